@@ -43,6 +43,7 @@ func flowJudge(w *fw.W, prop string, c *flowCase, o sl.CompareOpts, classify fun
 		w.Count("ambiguous_skipped", 1)
 		w.Cover("ambiguous_reasons", exp.Ambiguous)
 		w.Count("ambiguous: "+exp.Ambiguous, 1)
+		unjudgedRun(w, waf, c, c.Req)
 		return true
 	}
 	w.Trace(c)
